@@ -23,6 +23,7 @@ from __future__ import annotations
 
 from ..model import ANALYSIS, DEX
 from ..model import AnalysisError
+from ..xref_model import check_property
 from ..offset_model import rule_offset_functions, rule_payload_model, rule_payload_links_model
 from ..xref_engine import (Engine, XrefModel, Collector, Mut, rule_fact_offsets, rule_basic_block_offsets,
                            run_mutants, m_swap_args, m_set_arg, m_set_receiver, m_rename_call, m_delete_call, m_const, m_replace_src, b_rename_local)
@@ -32,9 +33,9 @@ OWN_MUTATION_ADEQUACY = True
 
 
 def core(sink, eng):
-    xm = XrefModel(eng)
-    sink.analysed(xm.root)
-    rule_fact_offsets(sink, xm)
+    # provenance: the offset component of every xref record is the offset get_instructions_idx() reports (model execution)
+    check_property(sink, eng.repo, "C40")
+    sink.floor("prescribed_records", 400)
     # disassembler side: executed abstractly on a model (values are judged, not loop shapes)
     rule_offset_functions(sink, eng.repo)
     deferred = rule_payload_model(sink, eng.repo)
